@@ -97,4 +97,30 @@ CHECKS = {
         "assumptions": ["replicas <= 8: a multi-GB allocation for replicas near 2^31 is resource exhaustion, not the panic the property is about",
                         "spec itself is present (an object without spec is not generated)"] + COMMON_ASSUMPTIONS,
     },
+    "C02": {
+        "level": "exploration",
+        "rule": "case = generated world with a mostly constructed initial pod population (present / missing / unready / terminating / outdated / extra / "
+                "orphaned / failed / succeeded pods over ordinals 0..8, 1-3 revisions with status.currentRevision re-pointed) + <= 25 random ops "
+                "(reconciles with stale caches, faults, interference, kubelet steps, user edits, controller restart), then the fair closing schedule "
+                "(full refresh, reconcile, kubelet readies every remaining pod and finalises terminating ones) with state-cycle detection and a "
+                "round bound B = 4(|pods|+r+|slots|+9)+16. Oracle at the fixed point: pods = exactly the desired ordinals, all Running+Ready, owned, "
+                "at the revision their ordinal calls for; status.replicas = readyReplicas = spec.replicas; counters are an exact census; two more "
+                "reconciles issue no write. Runs whose final state holds a Failed/Succeeded pod outside the desired set under OrderedReady are "
+                "premise-excluded (counted). Non-trivial = the initial population needs >= 2 kinds of repair or a slot lies below the top ordinal; "
+                "distinct = distinct world+history",
+        "legs": [{"test": "TestC02", "quick": {"checks": 2500}, "thorough": {"checks": 300000, "shards": 16}}],
+        "assumptions": ["bounded liveness: one fair schedule family; a fixed point must be reached within B rounds (B never binds on the healthy tree)"] + COMMON_ASSUMPTIONS,
+    },
+    "C12": {
+        "level": "exploration",
+        "rule": "case = world reached only through legitimate transitions (set created empty; template edits, rollbacks, scale edits, kubelet "
+                "progress incl. pod failures, user pod deletions, stale caches, faults, mid-reconcile edits) of <= 40 ops, then the closing schedule. "
+                "Oracle per status write: 0 <= ready/current/updated <= replicas, observedGeneration = reconciled generation and >= stored value, "
+                "currentRevision moves only to updateRevision and only when the snapshot's pods are all updated and Ready; at the fixed point the "
+                "four counters are an exact census of live pods. Non-trivial = a status write from a reconcile that also wrote a pod, or with >= 3 "
+                "revisions referenced by pods/status; distinct = world+history",
+        "legs": [{"test": "TestC12", "quick": {"checks": 2500}, "thorough": {"checks": 300000, "shards": 16}}],
+        "floors": {"status-write-with->=3-revisions-in-flight": 0.02},
+        "assumptions": COMMON_ASSUMPTIONS,
+    },
 }
